@@ -104,7 +104,7 @@ def run(ctx):
         ctx.say("NOTE: plan %s did not finish within 5 s (hang): only prefix checks applied to its runs" % c["id"])
 
     # ---- evidence
-    H = dict(outcomes={}, retries={}, script_len={}, calls={}, status={}, kinds={})
+    H = dict(outcomes={}, overrun_flavours={}, retries={}, script_len={}, calls={}, status={}, kinds={})
     combos = set()
     ran = runs = never = 0
     for c in live:
@@ -140,7 +140,7 @@ def run(ctx):
         dropped_kinds=fw.histogram(k for c in dropped for k in (c["dist"].get("dropped_kinds") or {})),
         rerun_causes=fw.histogram(k for c in cases for k in ((c.get("dist") or {}).get("rerun_causes") or [])),
         reruns=fw.histogram(c["dist"].get("round", 0) for c in live),
-        distribution=dict(outcomes_delivered=H["outcomes"], retries=H["retries"], script_len=H["script_len"],
+        distribution=dict(outcomes_delivered=H["outcomes"], overrun_flavours=H["overrun_flavours"], retries=H["retries"], script_len=H["script_len"],
                           invocations_per_run=H["calls"], final_status=H["status"], kinds=H["kinds"]),
         coq_shards=[dict(shard=i["shard"], n=i["n"], rc=i["rc"], wall_s=round(i["wall"], 1)) for i in infos],
     ), assumptions=[
@@ -151,7 +151,10 @@ def run(ctx):
         "after its deadline), late_end (the plugin logged an in-time return, the engine recorded a timeout, and its write came "
         "AFTER the invocation's deadline - the same with the write before the deadline is not excused), near_deadline (in-time "
         "return within 4 ms of the deadline). not-entered (attempt without invocation: the worker pool gave up) is re-run too but "
-        "compared as it is if it persists. An overrunning plugin returns only after the engine's write of that attempt (cap 150 ms)",
+        "compared as it is if it persists; likewise late_notice (a prompt-flavour overrun whose late answer the engine recorded, "
+        "with the attempt write >= 8 ms after the deadline). Overrun flavours: the plugin returns only after the engine's write of "
+        "that attempt (cap 150 ms), or answers 8 ms after the cancellation (good response / permanent error); the model expects "
+        "the timeout attempt for both",
         "modelled, not verified: Backoff.Retry of github.com/Azure/retry (transcribed), the retry policy has no MaxAttempts, the plan "
         "context is not cancelled during a run. Not covered: the back-off durations; recovered (Running) actions (C09/C10)",
     ])
